@@ -760,6 +760,8 @@ def expected_cells(row, enc, scr, wof):
         for ch in run.decode(enc, "replace"):
             o = ord(ch)
             if o < 32 and cs != "U":
+                if enc == "utf-8":
+                    continue            # takes no column in the canvas (str_util), takes no cell on the screen
                 o, ch = 63, "?"
             w = wof(ch)
             if w == 0:
@@ -1390,7 +1392,7 @@ class C04(core.Check):
                 "bbb": rng.choice([0, 0, 1]), "bce": rng.choice([1, 1, 0]), "partial": 0,
                 "props_late": rng.choice([0, 0, 1]), "palette": PALETTE, "attrs": self.ATTRS}
 
-    def gen_cells(self, rng, cols, enc, last_row_bias=False, zero_width_runs=True):
+    def gen_cells(self, rng, cols, enc, last_row_bias=False, zero_width_runs=True, controls=True):
         """one canvas row as a list of (attr index, cs, text, width) cells filling exactly cols columns"""
         nat = len(self.ATTRS)
         trailing = min(cols, rng.choice([0, 0, 0, 1, 1, 2, 3, cols // 2, cols]))
@@ -1417,6 +1419,9 @@ class C04(core.Check):
                 elif r < 0.40 and zero_width_runs and cells:
                     cells.append((rng.randrange(nat), 0, "\u0301", 0))      # a combining character under its own attribute
                     continue
+                elif r < 0.41 and controls and cells:
+                    cells.append((a, 0, rng.choice("\x01\x1f\t"), 0))      # a C0 control character: no column
+                    continue
                 else:
                     ch, w = rng.choice("abcxyzXYZ01._-<&"), 1
             else:
@@ -1426,11 +1431,13 @@ class C04(core.Check):
                 if cs == 1:
                     ch = rng.choice("qxlkmjntu a")
                 elif cs == 2:
-                    ch = rng.choice("abc \u00b0\u00c4\u00db#" if enc != "ascii" else "abc #$%") if r < 0.9 else " "
+                    ch = rng.choice("abc \u00b0\u00c4\u00db#") if r < 0.9 else " "
                 elif r < 0.15:
                     ch = " "
                 elif r < 0.2 and enc == "iso8859-1":
                     ch = rng.choice("\u00e9\u00fc\u00a0")
+                elif r < 0.23 and controls:
+                    ch = rng.choice("\x01\x1f")                              # painted as "?" (one column)
                 else:
                     ch = rng.choice("abcxyzXYZ01._-<&")
             cells.append((a, cs, ch, w))
@@ -1455,8 +1462,12 @@ class C04(core.Check):
                 runs.append([a, cs, ch])
         return runs
 
-    def gen_rows(self, rng, cols, rows, enc):
-        return [self.cells_to_runs(rng, self.gen_cells(rng, cols, enc)) for _ in range(rows)]
+    def gen_rows(self, rng, cols, rows, enc, controls=True):
+        return [self.cells_to_runs(rng, self.gen_cells(rng, cols, enc, controls=controls)) for _ in range(rows)]
+
+    @staticmethod
+    def has_controls(cv):
+        return cv[0] in ("rows", "textcanvas") and any(ord(ch) < 32 for row in cv[1] for r in row for ch in r[2])
 
     def mutate_rows(self, rng, rws, cols, enc):
         rws = [[list(r) for r in row] for row in rws]
@@ -1600,7 +1611,8 @@ class C04(core.Check):
             f["cursor"] = cur
             if f["canvas"][0] == "widget":
                 f["cursor"] = cur
-            if rng.random() < 0.5 and (not self.uses_undef(f["canvas"]) or rng.random() < 0.03):
+            if rng.random() < 0.5 and (not self.uses_undef(f["canvas"]) or rng.random() < 0.03) \
+                    and not self.has_controls(f["canvas"]):
                 f["html"] = 1
             if extra:
                 f.update(extra)
@@ -1734,7 +1746,7 @@ class C04(core.Check):
             if not self.widget_ok(case, case):
                 case["canvas"] = None
         if case["canvas"] is None:
-            rws = self.gen_rows(rng, cols, rows, enc)
+            rws = self.gen_rows(rng, cols, rows, enc, controls=False)
             if enc != "utf-8":
                 rws = [[[a, cs, t] for a, cs, t in row if True] for row in rws]
             case["canvas"] = [rng.choice(["rows", "textcanvas"]), rws]
